@@ -11,7 +11,8 @@
               times, each [key; value; ok; Count()]; [-1] if the bound was hit
      gets   : Get(k) for k = 0 .. nkeys-1, each [value; ok]
 
-   The executed model is the pointer-level one (C07_Dll.v). *)
+   The reported model run (c07_run) is the pointer-level one (C07_Dll.v);
+   c07_agree compares the implementation with it AND with Layer 1. *)
 
 From Gogu Require Import Base C07_Model C07_Dll.
 Local Open Scope Z_scope.
@@ -122,7 +123,12 @@ Definition c07_run_spec (w : list Z) : list Z :=
     (fun o s => let (l', r) := spec_step (fst s) o (snd s) in ((fst s, l'), r))
     (fun s => spec_count (snd s)) w.
 
-Definition c07_agree (w obs : list Z) : bool := zlist_eqb obs (c07_run w).
+(* Correspondence: the implementation's observation must be the one of BOTH
+   executable transcriptions — the pointer-level heap model (c07_run, C07_Dll.v)
+   and Layer 1 (c07_run_l1, C07_Model.v) — on every case.  (They coincide by
+   C07_dll_refines_lru; running both ties each layer to the code separately.) *)
+Definition c07_agree (w obs : list Z) : bool :=
+  zlist_eqb obs (c07_run w) && zlist_eqb obs (c07_run_l1 w).
 
 (* The property is judged against the SPECIFICATION machine (a recency list
    with capacity), not against the transcription of the code: C07 determines
